@@ -30,6 +30,8 @@ def run(c):
     warnings.simplefilter('ignore')
     idx = [EPOCH + datetime.timedelta(days=d) for d, _ in c['curve']]
     eq = [e for _, e in c['curve']]
+    if c.get('int_equity') and all(float(e).is_integer() for e in eq):
+        eq = [int(e) for e in eq]          # the Equity column gets an integer dtype
     df = pd.DataFrame({'Equity': eq}, index=idx)
     alloc = pd.DataFrame({'EQ:A': [1.0] * len(idx)}, index=idx)
     P = c.get('periods', 252)
